@@ -96,11 +96,16 @@ def run_case(case, ctx):
 				for i, q in enumerate(order):
 					stem, ext, gz = plan['names'][i % len(plan['names'])]
 					nm = clean_name(stem, ext + ('.gz' if gz else ''), chan == 'list')
+					if plan.get('repeat_paths') and q in order[:i]:
+						# the same genome again = the very same file again (the same line repeated verbatim in a list file)
+						j = order.index(q)
+						rel.append(rel[j]); gzs.append(gzs[j])
+						continue
 					rel.append(nm if (i % 3 == 0 and nm not in rel) else os.path.join(f'sub{i}', 'deeper' if i % 2 else '', nm))
 					gzs.append((plan.get('gz_members', 1) if i % 2 == 0 else True) if gz else False)
 				paths = H.write_genomes(os.path.join(pd, 'base'), [W.query_contigs[q] for q in order], rel, gz=gzs, softmask=plan.get('softmask'))
 				labels = [H.expected_label(p) for p in rel]
-				if plan.get('symlinks'):
+				if plan.get('symlinks') and not (plan.get('repeat_paths') and len(set(rel)) < len(rel)):
 					# each input is a symbolic link (as staged by workflow managers) to a file with an unrelated name
 					store = os.path.join(pd, 'store')
 					os.makedirs(store, exist_ok=True)
@@ -121,6 +126,8 @@ def run_case(case, ctx):
 						classes.add('list_cwd=' + lcwd)
 				if any(gzs):
 					classes.add('gzip_input')
+				if len(set(rel)) < len(rel):
+					classes.add('same_file_given_repeatedly')
 			if plan['cores'] is not None:
 				args += ['-c', str(plan['cores'])]
 			args += ['--progress' if plan['progress'] else '--no-progress']
@@ -230,6 +237,7 @@ def gen_case(draw, tier):
 			'out_mode': draw(st.sampled_from(['file', 'file', 'stale', 'file', 'stdout', 'file'])),
 			'list_cwd': draw(st.sampled_from([None, 'decoy', None, 'implicit'])),
 			'softmask': draw(st.sampled_from([None, 3, None, 17])),
+			'repeat_paths': draw(st.sampled_from([False, True, False])),
 		})
 	return {'kind': 'plans', 'world': w, 'plans': plans}
 
